@@ -300,12 +300,14 @@ structure EngTotals where
   adopted : Nat := 0    -- `resize-*` lines after which the snapshot was adopted (failed Open)
   diffPlain : Nat := 0  -- plain opens on a state where the first and the precise absorb rule differ
   diffResize : Nat := 0 -- the same for `resize-*` lines
+  vfs : Nat := 0        -- `vfs` lines compared with the model's vfs trace (Model/EngineTrace.lean)
 
 def EngTotals.add (t : EngTotals) (st : EngSt) (endOfProgram : Bool) : EngTotals :=
   { checked := t.checked + st.checked, mism := t.mism + st.mismatches.length,
     progs := t.progs + (if endOfProgram then 1 else 0), rsz := t.rsz + st.resizesReplayed,
     relFailed := t.relFailed + st.resizesRelFailed, adopted := t.adopted + st.resizesAdopted,
-    diffPlain := t.diffPlain + st.absorbDiffPlain, diffResize := t.diffResize + st.absorbDiffResize }
+    diffPlain := t.diffPlain + st.absorbDiffPlain, diffResize := t.diffResize + st.absorbDiffResize,
+    vfs := t.vfs + st.vfsChecked }
 
 /-- pqconc mode: replay the controlled producer/consumer schedules of the real queue (`vh pqconc`) on the
     two-thread queue model (Model/PQQueueConc.lean, Model/PQQueueConcDriver.lean): every recorded step must be
@@ -384,7 +386,7 @@ def main (args : List String) : IO UInt32 := do
     return (if mism == 0 then 0 else 1)
   | "engine" =>
     let t ← engLoop stdin {} "" {}
-    IO.println s!"DONE checked={t.checked} mismatches={t.mism} bad=0 programs={t.progs} resizes_replayed={t.rsz} resizes_release_failed={t.relFailed} resizes_adopted={t.adopted} absorb_rules_differ_open={t.diffPlain} absorb_rules_differ_resize={t.diffResize}"
+    IO.println s!"DONE checked={t.checked} mismatches={t.mism} bad=0 programs={t.progs} resizes_replayed={t.rsz} resizes_release_failed={t.relFailed} resizes_adopted={t.adopted} absorb_rules_differ_open={t.diffPlain} absorb_rules_differ_resize={t.diffResize} vfs_traces_compared={t.vfs}"
     return (if t.mism == 0 then 0 else 1)
   | _ =>
     IO.eprintln s!"unknown mode {mode}"
